@@ -716,7 +716,28 @@ def probe_variant():
     vm.set("ci", 5.0)
     vm.std_polar("c")
     std = -math.pi <= float(vm.get("ci")) < math.pi
-    return {"fixSame": bool(merge and cplx), "fixStd": bool(std), "merge": bool(merge), "cplx": bool(cplx)}
+    # the two C08 repairs inside VarsManager (Cfg.stdFree, Cfg.boundHead of the shared model):
+    # fix_C08_standard_complex_free_only.diff: standard_complex leaves a complex variable with a fixed part alone
+    vm = VarsManager(dtype="float64")
+    vm.add_complex_var("c", polar=True, trainable=False, fix_vals=(-1.0, 0.5))
+    vm.add_complex_var("d", polar=True)
+    vm.set("dr", -1.0)
+    vm.set("di", 0.5)
+    vm.set_fix("di")
+    vm.standard_complex()
+    std_free = float(vm.get("cr")) == -1.0 and float(vm.get("ci")) == 0.5 and float(vm.get("dr")) == -1.0 and float(vm.get("di")) == 0.5
+    # fix_C08_set_bound_free_name.diff: set_bound registers under the first entry of the tie group
+    vm = VarsManager(dtype="float64")
+    for n, v in zip("abc", [1.0, 1.0, 2.0]):
+        vm.add_real_var(n, v)
+    vm.set_same(["a", "b"])
+    import warnings
+    with warnings.catch_warnings():
+        warnings.simplefilter("ignore")
+        vm.set_bound({"b": (0.5, 1.5), "c": (None, 3.0)})
+    bound_head = list(vm.bnd_dic) == ["a", "c"]
+    return {"fixSame": bool(merge and cplx), "fixStd": bool(std), "merge": bool(merge), "cplx": bool(cplx),
+            "stdFree": bool(std_free), "boundHead": bool(bound_head)}
 
 
 # ----------------------------------------------------------------------------------------------
@@ -1048,7 +1069,7 @@ def correspond(ctx, res):
             flat = []
             for t in toks:
                 flat += t + [";"]
-            lines.append("C16 hist %s %s %s %s" % (b01(variant["fixSame"]), b01(variant["fixStd"]), b01(polar0), " ".join(flat[:-1])))
+            lines.append("C16 histv %s %s %s %s %s %s" % (b01(variant["fixSame"]), b01(variant["fixStd"]), b01(variant["stdFree"]), b01(variant["boundHead"]), b01(polar0), " ".join(flat[:-1])))
             hlines.append("C16S hyp %s %s %s %s" % (b01(variant["fixSame"]), b01(variant["fixStd"]), b01(polar0), " ".join(flat[:-1])))
             runs.append((seed, mode, pure, polar0, ops, steps, last, hyps))
     out = ctx.model.query(lines)
@@ -1648,6 +1669,6 @@ def replay(ctx, payload):
 
 MANIFEST = {
     "text": "Lean theorems about TfPwaV.Vars.step, a statement-by-statement state-machine model of VarsManager (25 public calls), generic over the value arithmetic (so they hold for IEEE doubles). For EVERY well-phased history (create; fix/free; tie; bound; arbitrary interleavings), with repeated / overlapping set_same / sameas / set_share_r calls on real and complex names: the free list has no duplicates, only bound names, no two free names share a variable object and every same_list group has at most one free member (inv_reachable for the pre-fix set_same; inv_reachable_patched / counted_once_every_named_history for the set_same of the current tree (commit 647ec00) under the naming hypothesis WellNamed, shown necessary by the kernel-decided counterexample well_named_needed; no separation hypothesis, i.e. also when a complex parameter is tied as a whole AND through its parts). tied_stays_tied_partial / tie_groups_read_equal: if in addition every complex parameter is tied as a whole or through its parts, not both (WellSeparated, a decidable predicate evaluated by the Lean definition on every generated history), all members of every same_list group are bound to one object and read the same value, groups are pairwise disjoint and only grow (ties_only_grow); tied_stays_tied_refuted_outside: kernel-decided witness that outside WellSeparated a later call breaks an earlier tie (reproduced on the real VarsManager: listed finding set_same:whole-and-part:tie-broken). In every state satisfying the invariant the patched set_same binds all listed names and all members of merged groups to one object (set_same_ties_patched, _cplx); in EVERY state set_all(list)/set_trans_var/refresh_vars never move a parameter whose object has no free name, set/set_all(dict)/rp2xy/xy2rp move only objects of names they assign (fixed_frame_bulk, frame_targeted, coordinate_op_frame_partial with the shared-radius witness shared_radius_coordinate_op_moves_partner); names bound to one object stay bound and read equal through every history of value-level calls (bindings_stable, tied_read_equal); set_all(get_all_dic()) = identity on the whole state when no masked name is bound (getall_setall_id, getall_setall_id_partial) and writes the mask otherwise (witness). Over the reals: xy->polar and the sign step of std_polar preserve the complex value with r>=0, _std_polar_angle lands in [-pi,pi) preserving e^{i phi}; for the three built-in Bound forms x2y(y2x y)=y on the range, clipping outside, x2y maps R into the range, dydx and d2ydx2 are the derivatives (HasDerivAt). Custom Bound expressions (Props/C16b): an expression AST (x, constants, + - * /, neg, exp, log, sin, cos, tanh, sqrt, natural powers) with eval and symbolic diff; diff_is_deriv: for EVERY expression and every real x satisfying the side conditions (denominators != 0, log/sqrt arguments > 0; Dom, decided by the executable domB: domB_decides_dom) HasDerivAt (eval e) (eval (diff e) x) x; Dom is closed under diff, so the second slope and every higher one are derivatives too (second_slope_is_deriv, every_order_is_deriv); expressions without / log sqrt have no side condition (smooth_everywhere); for a+(b-a)/(1+exp(-x)), a+exp(x), b-exp(-x), (a+b)/2+(b-a)/2*tanh(x): closed forms of value / slope / second slope at every real x, range strictly inside the bounds and strict monotonicity; the three built-in forms written in the AST agree with the Bound model (builtin_forms_agree).",
-    "note": "The model is tied to tf_pwa.variable by a differential run: seeded well-phased histories (5-60 calls, real/complex names, Variable shapes; modes safe / wild / mixed = overlapping ties of complex parameters as a whole and through parts) on a real VarsManager and on the model, comparing the canonical state (free list in order, partition of names by object identity, values, flags, complex_vars, same_list, bnd_dic keys, init_val keys, polar) and the call result after EVERY call; bit-exact until the first transcendental op of a history, 1e-12 afterwards; the hypotheses tieOK / sepOK of the history theorems are computed by the Lean definitions (C16S) and compared with their renderings on the real object, and on every history satisfying them the conclusion (each same_list group on one object) is checked on the real object; Bound functions and utils.std_polar on grids incl. end points. Custom expressions: the harness parses the string with its own parser, sends the AST to the Float instance of the same template the theorems are about and compares eval / diff / diff-of-diff with get_x2y / get_dydx / get_d2ydx2 of the real Bound (sympy) on grids to 1e-12 (7 strings quick, 14 thorough, incl. the built-in forms through the generic path); the search checks x2y(y2x(y)) = y, range and finite-difference slopes. The harness observes whether the tree has the unpatched or patched set_same / std_polar and selects the model variant. Not proved, only validated: that sympy's diff / solve compute the derivative / inverse of the parsed expression (grids); TensorFlow/sympy numerics; histories outside WellNamed. Five findings of this check were repaired in /repo (c575cdd, e978164, 647ec00; kind 'fixed' in known_findings.jsonl); three remain listed (shared-radius coordinate ops, set_all(get_all_dic()) under a mask, a tie lost when a complex parameter is tied as a whole and through a part).",
+    "note": "Variant flags of the shared model: besides fixSame / fixStd the two C08 repairs inside VarsManager (Cfg.stdFree: standard_complex skips a complex variable unless both parts are free names; Cfg.boundHead: set_bound registers under bound_name(name), the first entry of the tie group) are probed on the real object in every run and passed to the model (`C16 histv`), default false = the tree as it is; the C16 theorems hold for every Cfg. The model is tied to tf_pwa.variable by a differential run: seeded well-phased histories (5-60 calls, real/complex names, Variable shapes; modes safe / wild / mixed = overlapping ties of complex parameters as a whole and through parts) on a real VarsManager and on the model, comparing the canonical state (free list in order, partition of names by object identity, values, flags, complex_vars, same_list, bnd_dic keys, init_val keys, polar) and the call result after EVERY call; bit-exact until the first transcendental op of a history, 1e-12 afterwards; the hypotheses tieOK / sepOK of the history theorems are computed by the Lean definitions (C16S) and compared with their renderings on the real object, and on every history satisfying them the conclusion (each same_list group on one object) is checked on the real object; Bound functions and utils.std_polar on grids incl. end points. Custom expressions: the harness parses the string with its own parser, sends the AST to the Float instance of the same template the theorems are about and compares eval / diff / diff-of-diff with get_x2y / get_dydx / get_d2ydx2 of the real Bound (sympy) on grids to 1e-12 (7 strings quick, 14 thorough, incl. the built-in forms through the generic path); the search checks x2y(y2x(y)) = y, range and finite-difference slopes. The harness observes whether the tree has the unpatched or patched set_same / std_polar and selects the model variant. Not proved, only validated: that sympy's diff / solve compute the derivative / inverse of the parsed expression (grids); TensorFlow/sympy numerics; histories outside WellNamed. Five findings of this check were repaired in /repo (c575cdd, e978164, 647ec00; kind 'fixed' in known_findings.jsonl); three remain listed (shared-radius coordinate ops, set_all(get_all_dic()) under a mask, a tie lost when a complex parameter is tied as a whole and through a part).",
     "technique": "Lean 4 proof (induction over operation histories of an executable state-machine model; structural induction over an expression AST with Mathlib HasDerivAt; real analysis for Bound / polar forms) + differential correspondence after every call + model-independent invariant search on the real object",
 }
